@@ -86,7 +86,7 @@ func checkWindowSearchWalksDown(c *an.Ctx, id string, find *ssa.Function, up *ss
 			continue
 		}
 		fs := ff.AtInstr(read)
-		okTop := false
+		okTop, okExact := false, false
 		for _, f := range fs {
 			if f.Op != "LT" {
 				continue
@@ -95,7 +95,22 @@ func checkWindowSearchWalksDown(c *an.Ctx, id string, find *ssa.Function, up *ss
 			if (!f.Pos && storeHeights[f.A] && f.B == ft.Of(down)) || (f.Pos && f.A == ft.Of(read.Call.Args[1]) && storeHeights[f.B]) {
 				okTop = true
 			}
+			// !(store.Height() < down-1): the bound on the height that is read
+			if !f.Pos && storeHeights[f.A] && f.B == ft.Of(read.Call.Args[1]) {
+				okTop, okExact = true, true
+			}
+			// the same bound written on the estimate: !(store.Height()+1 < down)
+			for sh := range storeHeights {
+				if !f.Pos && f.A == "("+sh+"+1)" && f.B == ft.Of(down) {
+					okTop, okExact = true, true
+				}
+			}
 		}
+		// … and not a tighter one (finding F36): the walk reads the header BELOW the estimate, so an estimate
+		// right above the store's head (store head + 1, what the head-based estimate gives a node that is
+		// a little behind) still has to be refined downwards; bounded by `estimate ≤ store.Height()` the walk
+		// is skipped there and the stored headers inside the window are pruned
+		c.Check(okExact, id, "walk-down-reaches-the-store-head", "the downward walk is bounded by the height it reads (estimate − 1 ≤ store.Height()), not by the estimate itself: an estimate right above the store's head is still walked down", find, read, "", fs)
 		okBottom := ff.ProveGE(read.Block(), ft.Affine(read.Call.Args[1]), an.Var("Height(p2)", true), 1)
 		c.Check(okTop && okBottom, id, "walk-down-reads-only-stored-heights", "the downward walk asks the store only for heights above the old tail and not above the store's own height (a read below the tail fails, a read above the height waits for a header nobody appends)", find, read, "", fs)
 	}
